@@ -7,6 +7,8 @@ use crate::sess::*;
 use proptest::prelude::*;
 use serde::{Deserialize, Serialize};
 
+const POW_BASES: &[f64] = &[0.3, 0.1, 1.01, 10.0, -1.0, 2.0, 1.0000001, 7.0, -0.7, 0.0, 1.5, 100.0, 3.0];
+const POW_EXPS: &[f64] = &[2.0, 3.0, 5.0, 10.0, 23.0, -1.0, -2.0, 365.0, -1030.0, 4294967296.0, 0.5, 1.5, -0.5, 0.0, 1.0, 64.0, 1023.0, 1024.0];
 const SETUP: &[&str] = &["C = 2", "K = -3", "Q = 0.5", "C$ = \"a\"", "K$ = \"ab\""];
 
 fn setup_model(m: &mut Model) {
@@ -322,6 +324,22 @@ pub fn property() -> Property {
             |tier, i| {
                 let lv = if tier == Tier::Quick { vec![Expr::Num(2.0), Expr::var("K")] } else { leaves_small() };
                 ExprCase { expr: three_op_tree(&lv, i), salt: i }
+            },
+            check_expr,
+        ),
+        // powers: non-dyadic bases, whole / negative / huge / fractional exponents
+        enum_family(
+            "powers",
+            true,
+            |_| (POW_BASES.len() * POW_EXPS.len() * 2) as u64,
+            |_, i| {
+                let i = i as usize;
+                let lit = |x: f64| if x < 0.0 { Expr::un(UnOp::Neg, Expr::Num(-x)) } else { Expr::Num(x) };
+                let b = lit(POW_BASES[i % POW_BASES.len()]);
+                let e = lit(POW_EXPS[(i / POW_BASES.len()) % POW_EXPS.len()]);
+                let p = Expr::bin(BinOp::Pow, b, e);
+                let expr = if i / (POW_BASES.len() * POW_EXPS.len()) == 0 { p } else { Expr::bin(BinOp::Mul, Expr::bin(BinOp::Pow, p, Expr::Num(2.0)), Expr::Num(3.0)) };
+                ExprCase { expr, salt: i as u64 }
             },
             check_expr,
         ),
